@@ -106,8 +106,8 @@ Proof. intros I E. apply hcnt_zero_none. rewrite (iv_resz s I), E. reflexivity. 
 Lemma no_holder s : HCInv s -> forall g b, lk s g b = false -> forall j t, nth_error (hths s) j = Some t -> holder g b t = false.
 Proof. intros I g b E. apply hcnt_zero_none. rewrite (iv_lock s I), E. reflexivity. Qed.
 
-Lemma len_of_app s g x ths' lk' st' c' r' sp' hi' fz' cn' : g < length (lens s) ->
-  len_of (mkHcs (lens s ++ [x]) st' lk' c' r' sp' hi' fz' cn' ths') g = len_of s g.
+Lemma len_of_app s g x ths' lk' st' c' r' sp' hi' fz' cn' ul' : g < length (lens s) ->
+  len_of (mkHcs (lens s ++ [x]) st' lk' c' r' sp' hi' fz' cn' ul' ths') g = len_of s g.
 Proof. intros H. unfold len_of. cbn [lens]. apply app_nth1. exact H. Qed.
 
 Ltac thr H Hi := apply nth_upd_cases in H; [destruct H as [[-> ->]|[? H]]|exact Hi].
@@ -126,7 +126,7 @@ Lemma inv_gen s i t t' lk' rz' cnt' :
   (pc_in (hpc_ t') [R1; R2] = true ->
      hsnap t' = hcur s /\ (hpc_ t' = R2 -> forall b, b < len_of s (hcur s) -> hcop t' b = true) /\ 1 <= hnlen t' /\
      forall k, hnt t' k = if hcop t' (bidx_of hidx s (hsnap t') k) then stores s (hsnap t') k else None) ->
-  HCInv (mkHcs (lens s) (stores s) lk' (hcur s) rz' (spec s) (hist s) (froz s) cnt' (upd_nth i t' (hths s))).
+  HCInv (mkHcs (lens s) (stores s) lk' (hcur s) rz' (spec s) (hist s) (froz s) cnt' (ulog s) (upd_nth i t' (hths s))).
 Proof.
   intros I Hi Hh Hr Hbi Hw4 Hadm1 Hadm2 Hrs. pose proof (nth_error_lt _ _ _ Hi) as Hlt.
   constructor; cbn [lens stores lk hcur resizing spec hths].
@@ -159,7 +159,7 @@ Lemma inv_lk s i t t' lk' :
   (pc_in (hpc_ t') [R1; R2] = true ->
      hsnap t' = hcur s /\ (hpc_ t' = R2 -> forall b, b < len_of s (hcur s) -> hcop t' b = true) /\ 1 <= hnlen t' /\
      forall k, hnt t' k = if hcop t' (bidx_of hidx s (hsnap t') k) then stores s (hsnap t') k else None) ->
-  HCInv (mkHcs (lens s) (stores s) lk' (hcur s) (resizing s) (spec s) (hist s) (froz s) (cnt s) (upd_nth i t' (hths s))).
+  HCInv (mkHcs (lens s) (stores s) lk' (hcur s) (resizing s) (spec s) (hist s) (froz s) (cnt s) (ulog s) (upd_nth i t' (hths s))).
 Proof.
   intros I Hi Hh Hr. apply (inv_gen s i t); try assumption. rewrite Hr. lia.
 Qed.
@@ -393,7 +393,7 @@ Proof.
     assert (Hge : hcop r (hbi t) = false) by (apply (iv_adm s I i t jr r Hi Hjr); [rewrite Hp; reflexivity|exact Hsn|exact Hpr]).
     rewrite Hb, Hsn in Hge.
     match goal with |- context [bidx_of hidx ?s' _ _] =>
-      lazymatch s' with mkHcs _ _ _ _ _ _ _ _ _ _ => rewrite (bidx_of_ext s' s) by reflexivity end end.
+      lazymatch s' with mkHcs _ _ _ _ _ _ _ _ _ _ _ => rewrite (bidx_of_ext s' s) by reflexivity end end.
     rewrite Hge. reflexivity.
   - intros k. unfold upd_store. rewrite Hsn, Nat.eqb_refl. unfold upd_fun.
     destruct (Z.eqb k (hkey t)); rewrite (iv_spec s I); reflexivity.
